@@ -360,6 +360,10 @@ def typed_options(tool):
         else:
             continue
         opts.append((name, a.dest, vals))
+        # every further long spelling of the same option is an argument list
+        # of its own (the generated key is derived from the spelling)
+        for alias in longs[1:]:
+            opts.append((alias, a.dest, vals[:2]))
     return opts
 
 
@@ -455,6 +459,19 @@ def judge_generate(tool, optlist, wd):
     # merge_config may touch SETTINGS only for matching keys (none here)
     if _ns_equal(a_direct, a_cfg):
         return [], "same-namespace"
+    # a generated key that is neither an option destination of the tool's
+    # parser nor a package setting is read by nothing: if the option values
+    # proper did not arrive either, the argument has no effect this way
+    from evo.tools.settings import SETTINGS as _S
+    stray = [k for k in data if k not in vars(a_direct) and k not in _S]
+    if stray and any(getattr(a_cfg, k) != v or
+                     type(getattr(a_cfg, k)) is not type(v)
+                     for k, v in vars(a_direct).items() if k != "config"):
+        return ["evo_%s %s: the generated config %s holds %s, which is "
+                "neither an option of evo_%s nor a setting, and the option "
+                "values differ from those of the direct call" %
+                (tool, " ".join(optlist), json.dumps(data), stray, tool)], \
+            "different-effect"
     e1 = _effect(tool, a_direct, wd, "d%d" % os.getpid())
     e2 = _effect(tool, a_cfg, wd, "c%d" % os.getpid())
     if e1 != e2:
